@@ -136,6 +136,8 @@ class LessParser(object):
             # stands in; a level of its own would be left on the stack and
             # be popped in place of the importing block's.
             self.scope.push()
+        # error recovery must not pop the levels this parser found in place
+        self.scope_base = len(self.scope)
 
         if not file:
             # We use a path.
@@ -1068,7 +1070,7 @@ class LessParser(object):
         while True:
             t = self.lex.token()
             if not t or t.value == '}':
-                if len(self.scope) > 1:
+                if len(self.scope) > max(1, self.scope_base):
                     self.scope.pop()
                 break
         self.parser.restart()
